@@ -46,11 +46,39 @@ What is proved here (about the model `Cedar/SchemaSyntax.lean`, tied to the code
                               (type leaves entity-or-common, the action normal form above, an empty-namespace entry without declarations
                               absent), under `WFFrag` (names the grammar's `Ident` accepts, no `__cedar`, `namespace_reserved_needed`)
                               and `SortedFrag` (record attributes in BTreeMap order); non-vacuity: `demoFragment`.
-NOT modelled (covered only by the four-way differential run of harness/src/c09.rs): annotations, the lexer and string escapes, the
-`BTreeMap` collection of the parsed declarations (entries are returned in source order; duplicate declarations / namespaces, which
-`build_namespace_bindings` refuses, are not detected), action `attributes`, records with additional attributes, the collision /
-unconvertible-shape checks of fmt.rs, JSON (de)serialisation, and everything `ValidatorSchema` construction does after name
-resolution (common-type inlining, cycle detection, hierarchy closure, action entities).
+  * THE `BTreeMap` COLLECTION of the parsed declarations (`Cedar/SchemaCollect.lean`: `collectFragment`, mirroring
+    `build_namespace_bindings` / `NamespaceRecord::new` / `collect_decls` / `update_namespace_record` of to_json_schema.rs and the
+    `.collect()` into `BTreeMap`s):
+    `fragment_roundtrip_collected`  for a fragment with the `BTreeMap` key invariant (`FragKeysOK`: keys distinct and in key order at
+                              every level; namespace names in the derived `InternalName` order, basename first), print → parse →
+                              duplicate checks → collection = `.ok (normFragment f)`;
+    `collect_rejects_duplicates`    a repeated entity-type / action / common-type name in one namespace is `DuplicateDeclarations`,
+                              otherwise a repeated namespace name `DuplicateNameSpaces`, otherwise accepted; end to end from tokens:
+                              `collect_rejects_duplicates_examples`; an entity type and a common type of the SAME name are not a
+                              duplicate (`collect_allows_entity_common_clash`); `collect_sorts_example`.
+    Not proved: that the output of `collectFragment` is always key-sorted (insertion sort; only used through `FragKeysOK` inputs);
+    when a text has both a duplicate and a per-declaration conversion error the model answers `syntax` first, Rust the duplicate.
+  * THE REFUSAL CASES OF fmt.rs (`Cedar/SchemaFmtCheck.lean`: `toCedarChecked` = `json_schema_to_cedar_schema_str`):
+    `toCedar_refuses_iff`     refused iff some NAMED namespace declares a name both as entity type and as common type (`Collides`,
+                              error `NameCollisions`, priority) or some standard entity type's shape is not a record literal
+                              (`UnconvertibleEntityTypeShape`; such shapes are outside `EntityTypeJ` and passed as a name list);
+                              otherwise the printed fragment;
+    `finding_clash_not_refused`, `finding_shadow_not_refused`  the two recorded translation defects are NOT refused: the check skips
+                              the empty namespace, and does not look at references at all (kernel-checked on the fragments whose
+                              declaration environments are those of `envOK_needed_clash` / `envOK_needed_shadow`).
+  * ANNOTATIONS (`Cedar/SchemaAnnot.lean`, lemmas `Lemmas/SchemaAnnot.lean`): `est::Annotations` maps (identifier keys in `BTreeMap`
+    order, optional values), `Annotations::fmt_indented`, the grammar's `Annotation*` + `deduplicate_annotations`:
+    `annotations_roundtrip`   an annotation map comes back with the same keys and values, an absent value (`@key`, JSON `null`) as `""`
+                              (`annotation_null_becomes_empty`); `annotations_parser_accepts_more`: sorting, `DuplicateAnnotations`;
+    `annotated_namespace_roundtrip`  a namespace body whose common types / entity types / actions each carry an annotation map reads
+                              back as the same declarations (`annotated_namespace_strip`: exactly those of `fragment_roundtrip`)
+                              each with its normalised annotations;
+    `AnnotatedFragmentRoundtrip` (def, NOT proved): the same for whole fragments incl. annotations on `namespace` blocks
+                              (`parseItemsA`); annotations on record ATTRIBUTES are outside the model; values are token-level
+                              strings (escaping belongs to the lexer).
+NOT modelled (covered only by the four-way differential run of harness/src/c09.rs): the lexer and string escapes, annotations on record
+attributes, action `attributes`, records with additional attributes, JSON (de)serialisation, and everything `ValidatorSchema`
+construction does after name resolution (common-type inlining, cycle detection, hierarchy closure, action entities).
 -/
 namespace Cedar.C09
 open Cedar.SchemaSyntax
